@@ -380,13 +380,13 @@ func c16Run(t *testing.T, p c16Plan) (res vfResult) {
 			return
 		}
 		if p.Restart {
-			raw, err := os.ReadFile(r.statePath)
+			raw, err := os.ReadFile(vfPathOf(r))
 			if err != nil {
 				res.failf("no-state-file", "%v", err)
 				return
 			}
 			os.WriteFile(w.statePath("r2"), raw, 0o644)
-			r2 := NewRouter(w.statePath("r2"))
+			r2 := vfNewRouter(w.statePath("r2"))
 			w.adopt(r2)
 			if err := r2.RestoreLastSavedState(); err != nil {
 				res.failf("restore-failed", "restore: %v", err)
